@@ -460,6 +460,14 @@ def r7_envelope_writes_unconditional(ctx):
                          detail={'path': [repr(n) for n in (path or [])][-5:]})
 
 
+def r8_shared_writer_counts(ctx):
+    """the 999 is written through X12Writer, which regenerates SE/GE/IEA from its own counters: the trailer counts of
+    the acknowledgement are the obligations of C11.R2"""
+    from . import c11
+    for o in c11.r2_counts(ctx):
+        yield o
+
+
 RULES = [
     Rule('C06.R1', 'who may write to the acknowledgement stream', r1_who_writes, floor=2),
     Rule('C06.R2', 'GS08/ST03 written are constants selectable through maps.xml and accepted by the 997/999 map', r2_version_keys, floor=3),
@@ -468,4 +476,5 @@ RULES = [
     Rule('C06.R5', 'set control numbers: incremented once per group, one format', r5_st_control, floor=3),
     Rule('C06.R6', '997 hand-kept counters: ST resets, SE = count+1, GE/IEA from loop counters', r6_997_counter, floor=6),
     Rule('C06.R7', 'every hook writes its envelope segments on every path to its normal exit', r7_envelope_writes_unconditional, floor=14),
+    Rule('C06.R8', 'shared with C11.R2: trailers regenerated by X12Writer carry the counters the reader compares', r8_shared_writer_counts, floor=10),
 ]
